@@ -101,12 +101,16 @@ def run(ctx):
             R.append((int(p[1]), int(p[2]), int(p[3]), p[4] == "true", p[5] == "true", p[6] == "true"))
     Z = vf.coq_Z
     B = lambda b: "true" if b else "false"
-    items = ["((%s,%s,%s),(%s,%s,%s,%s))" % (Z(iv * 1000), Z(n), Z(ns), Z(ms), Z(pi), Z(ni), Z(bi))
-             for iv, n, ns, ms, pi, ni, bi in S]
+    CH = 1500  # cases per definition (a single huge list literal overflows coqc's parser stack)
     txt = ["From Coq Require Import ZArith List Bool.", "From Verif Require Import Dpos.Slot.", "Import ListNotations.",
-           "Open Scope Z_scope.",
-           "Definition cases : list ((Z*Z*Z)*(Z*Z*Z*Z)) := [%s]." % ";\n".join(items),
-           "Definition M := Eval vm_compute in slot_mismatches cases.", "Print M."]
+           "Open Scope Z_scope."]
+    nchunks = 0
+    for c0 in range(0, len(S), CH):
+        items = ["((%s,%s,%s),(%s,%s,%s,%s))" % (Z(iv * 1000), Z(n), Z(ns), Z(ms), Z(pi), Z(ni), Z(bi))
+                 for iv, n, ns, ms, pi, ni, bi in S[c0:c0 + CH]]
+        txt += ["Definition cases%d : list ((Z*Z*Z)*(Z*Z*Z*Z)) := [%s]." % (nchunks, ";\n".join(items)),
+                "Definition MS%d := Eval vm_compute in slot_mismatches cases%d." % (nchunks, nchunks), "Print MS%d." % nchunks]
+        nchunks += 1
     # relations and future
     rel = ["((%s,%s,%s),(%s,%s,%s))" % (Z(iv * 1000), Z(a), Z(b), B(e), B(nx), B(le)) for iv, a, b, e, nx, le in R]
     txt += ["Definition rel_ok (c : (Z*Z*Z)*(bool*bool*bool)) : bool :=",
@@ -124,6 +128,13 @@ def run(ctx):
     evals = len(S) + len(R) + len(F)
     mism = parse_all(out) if rc == 0 else None
     corr_broken = None
+    if mism is not None and len(mism) == nchunks + 2:
+        smis = []
+        for k in range(nchunks):
+            smis += [k * CH + i for i in mism[k]]
+        mism = [smis, mism[nchunks], mism[nchunks + 1]]
+    elif mism is not None:
+        mism = None
     if mism is None:
         corr_broken = ("slot correspondence could not be evaluated", out[-2000:])
     else:
